@@ -389,21 +389,29 @@ def clamp : Option Num → Option Num → Option Num → Res (Option Num)
         | none => pure none
         | some c' => if c' = 1 then pure (some hi) else pure (some x)
 
-/-- `floor`: `t = $ to_int` short-circuits on nil; then the nudge. -/
-def floor (x : Option Num) : Res (Option Int) := do
-  match ← toInt x with
+/-- `floor` (as of 1b40f7e): `| =[] => [] | =x => { t = x to_int, { | [x, t] compare =-1 => … | t } }`.
+For nil the first branch's condition is the matched nil, so control reaches `=x`, whose bare binder
+matches nil as well and again yields nil: the block is nil. For a number `t = x to_int` is an
+integer (the `none` arm below is the bare binder letting a nil `t` through: the comparison is then
+nil, the `=-1` test fails and the result is `t`, i.e. nil). -/
+def floor : Option Num → Res (Option Int)
   | none => pure none
-  | some t => do
-    let c ← compare x (some (.int t))
-    if c = some (-1) then do let r ← iSub t 1; pure (some r) else pure (some t)
+  | some x => do
+    match ← toInt (some x) with
+    | none => pure none
+    | some t => do
+      let c ← compare (some x) (some (.int t))
+      if c = some (-1) then do let r ← iSub t 1; pure (some r) else pure (some t)
 
-/-- `ceil` -/
-def ceil (x : Option Num) : Res (Option Int) := do
-  match ← toInt x with
+/-- `ceil` (same shape as `floor`) -/
+def ceil : Option Num → Res (Option Int)
   | none => pure none
-  | some t => do
-    let c ← compare x (some (.int t))
-    if c = some 1 then do let r ← iAdd t 1; pure (some r) else pure (some t)
+  | some x => do
+    match ← toInt (some x) with
+    | none => pure none
+    | some t => do
+      let c ← compare (some x) (some (.int t))
+      if c = some 1 then do let r ← iAdd t 1; pure (some r) else pure (some t)
 
 /-- `round`: the first branch (`=[] => []`) and a nil `floor` both end in nil. -/
 def round : Option Num → Res (Option Int)
